@@ -539,3 +539,47 @@ Proof.
   - reflexivity.
   - repeat constructor.
 Qed.
+
+(* ================================================================================================================== *)
+(* Phase 7 (appended).  Extend-split: the REPORTED result.  The harness oracle "reported result = sum of the values stored on the current
+   areas" is C05's accumulator theorem on the extend-split model (imported: Proofs/AccumESProofs.v es_accumulator_is_recomputation - the
+   accumulator of the driver, init / evaluate new areas / refine = remove the parent's value + add the children, is at every stop the sum
+   over the current areas of their values under the current scheme).  New here: for the tensor trapezoidal rule applied to a multilinear
+   monomial that sum IS the model integral of C04 (C04_es_recompute_is_es_integral), so per-area exactness + the C07 tiling in moment form +
+   C07's local-combination theorems give exactness of the reported result itself. *)
+From SG Require Import Model.Accum Model.AccumES Proofs.AccumESProofs Proofs.ESReported.
+Theorem C04_es_recompute_is_es_integral : forall dim version nrbe lmin lmax base auto single a b bens0,
+  wfbox a b -> length a = dim -> (lmin <= lmax)%Z -> forall hist ex,
+  let st := run_events (start_state dim version nrbe lmin lmax base auto single a b bens0) hist in
+  es_recompute (Fmono a b ex) st = es_integral a b (state_areas st) ex.
+Proof. exact es_recompute_is_es_integral. Qed.
+Theorem C04_es_reported_multilinear_exact : forall dim version nrbe lmin lmax base auto single a b bens0,
+  wfbox a b -> length a = dim -> (lmin <= lmax)%Z -> forall hist ex (area_of : Z -> area) (s : astate Qc),
+  let st := run_events (start_state dim version nrbe lmin lmax base auto single a b bens0) hist in
+  Coupled Qc 0%Qc Qcplus (fun id => es_area_value (Fmono a b ex) (st_cp st) (area_of id)) s -> st_new s = [] ->
+  es_live st = map area_of (map fst (st_areas s)) ->
+  (forall x, In x (st_objs st) -> valid_local_combi dim (area_grids (st_cp st) x) = true /\ area_grids (st_cp st) x <> []) ->
+  length ex = dim -> Forall (fun k => (k <= 1)%nat) ex ->
+  st_total s = bmom a b ex /\ st_cont s = bmom a b ex.
+Proof. exact es_reported_multilinear_exact. Qed.
+Theorem C04_es_reported_multilinear_exact_v0 : forall n nrbe lmin lmax base auto single a b bens0 hist ex (area_of : Z -> area) (s : astate Qc),
+  wfbox a b -> length a = S (S n) -> (lmin <= lmax)%Z ->
+  let st := run_events (start_state (S (S n)) 0 nrbe lmin lmax base auto single a b bens0) hist in
+  Coupled Qc 0%Qc Qcplus (fun id => es_area_value (Fmono a b ex) (st_cp st) (area_of id)) s -> st_new s = [] ->
+  es_live st = map area_of (map fst (st_areas s)) ->
+  length ex = S (S n) -> Forall (fun k => (k <= 1)%nat) ex ->
+  st_total s = bmom a b ex /\ st_cont s = bmom a b ex.
+Proof. exact es_reported_multilinear_exact_v0. Qed.
+Print Assumptions C04_es_recompute_is_es_integral.
+Print Assumptions C04_es_reported_multilinear_exact.
+Print Assumptions C04_es_reported_multilinear_exact_v0.
+
+(* non-vacuity: the recomputation over the 16 areas of es_st (C04_es_reachable_nonvacuous) for the monomial x is 4 *)
+Example C04_es_recompute_nonvacuous : es_recompute (Fmono es_a es_b [1%nat; 0%nat]) es_st = q 4 1.
+Proof.
+  unfold es_st. rewrite (C04_es_recompute_is_es_integral 2 0 1 1 2 1 false false es_a es_b []).
+  - exact (proj2 (proj2 C04_es_reachable_nonvacuous)).
+  - unfold es_a, es_b, q. simpl. split; [|split]; try exact I; apply Qclt_alt; vm_compute; reflexivity.
+  - reflexivity.
+  - discriminate.
+Qed.
